@@ -34,6 +34,10 @@ pub enum SrcKind {
     Nested,
     /// `UserView`: a view type defined in the harness with the trait's provided methods left at their defaults
     User,
+    /// a *mutable* cropped view in the source role: TypedCroppedImageMut::from_ref over a TypedImage parent (copy of the backing)
+    CropMutSrc,
+    /// CroppedImageMut::new over an Image parent (copy of the backing), as the source of the dynamic entry point
+    DynCropMutSrc,
 }
 
 #[derive(Clone, Copy, Debug, PartialEq, Eq, Hash)]
@@ -56,7 +60,7 @@ pub enum DstKind {
     UserMut,
 }
 
-pub const SRC_KINDS: [SrcKind; 11] = [
+pub const SRC_KINDS: [SrcKind; 13] = [
     SrcKind::Ref,
     SrcKind::RefBuf,
     SrcKind::Typed,
@@ -68,6 +72,8 @@ pub const SRC_KINDS: [SrcKind; 11] = [
     SrcKind::DynCrop,
     SrcKind::Nested,
     SrcKind::User,
+    SrcKind::CropMutSrc,
+    SrcKind::DynCropMutSrc,
 ];
 pub const DST_KINDS: [DstKind; 8] = [
     DstKind::Typed,
@@ -82,10 +88,10 @@ pub const DST_KINDS: [DstKind; 8] = [
 
 impl SrcKind {
     pub fn is_crop(self) -> bool {
-        matches!(self, SrcKind::Crop | SrcKind::CropOwned | SrcKind::DynCrop | SrcKind::Nested | SrcKind::User)
+        matches!(self, SrcKind::Crop | SrcKind::CropOwned | SrcKind::DynCrop | SrcKind::Nested | SrcKind::User | SrcKind::CropMutSrc | SrcKind::DynCropMutSrc)
     }
     pub fn is_dyn(self) -> bool {
-        matches!(self, SrcKind::DynRef | SrcKind::DynImage | SrcKind::DynVec | SrcKind::DynCrop)
+        matches!(self, SrcKind::DynRef | SrcKind::DynImage | SrcKind::DynVec | SrcKind::DynCrop | SrcKind::DynCropMutSrc)
     }
 }
 impl DstKind {
@@ -347,6 +353,12 @@ pub fn resize_through<P: Px>(
                 _ => to_typed_dst!(s),
             }
         }
+        S::CropMutSrc => {
+            let mut copy = sb.buf.clone();
+            let mut parent = TypedImage::<P>::from_pixels_slice(sp.pw, sp.ph, &mut copy).expect("src parent");
+            let s = TypedCroppedImageMut::from_ref(&mut parent, sp.left, sp.top, sw, sh).expect("src CropMutSrc");
+            to_typed_dst!(s)
+        }
         S::User => {
             let s = UserView::new(&sb.buf, sp.pw, sp.left, sp.top, sw, sh);
             match dk {
@@ -358,7 +370,7 @@ pub fn resize_through<P: Px>(
             }
         }
         // ---- dynamic entry point
-        S::DynRef | S::DynImage | S::DynVec | S::DynCrop => {
+        S::DynRef | S::DynImage | S::DynVec | S::DynCrop | S::DynCropMutSrc => {
             macro_rules! with_dyn_dst {
                 ($s:expr) => {{
                     let s = $s;
@@ -400,6 +412,14 @@ pub fn resize_through<P: Px>(
                         }
                         Err(e) => panic!("from_vec_u8: {:?}", e),
                     }
+                }
+                S::DynCropMutSrc => {
+                    let mut copy = sb.buf.clone();
+                    let bytes = unsafe { std::slice::from_raw_parts_mut(copy.as_mut_ptr() as *mut u8, copy.len() * std::mem::size_of::<P>()) };
+                    let mut parent = Image::from_slice_u8(sp.pw, sp.ph, &mut bytes[..sp.pw as usize * sp.ph as usize * std::mem::size_of::<P>()], P::PT).expect("src dyn parent");
+                    let s = CroppedImageMut::new(&mut parent, sp.left, sp.top, sw, sh).expect("src DynCropMutSrc");
+                    let mut d = Image::from_slice_u8(dw, dh, db.bytes_mut(), P::PT).expect("dst DynImage");
+                    r.resize(&s, &mut d, opts)
                 }
                 _ => {
                     let parent = ImageRef::new(sp.pw, sp.ph, sb.bytes(), P::PT).expect("src dyn parent");
